@@ -12,7 +12,7 @@ import json
 
 from ..common import MachineryError, Verdict, require, scratch
 from ..corpus import library
-from ..proto import cfg_text, default_corpus, prepare_world, run_drivers_parallel, tlc_proto
+from ..proto import cfg_text, default_corpus, full_corpus, prepare_world, run_drivers_parallel, tlc_proto
 from .. import common
 from ._proto_common import short, strip_kinds
 from .c02 import collect
@@ -48,9 +48,9 @@ def liveness(tmp, progs, types):
 
 def run(tier, corrupt=False):
     v = Verdict(PROP, tier)
-    progs = default_corpus()
     types = library()
     with scratch("c03-") as tmp:
+        progs = full_corpus(tmp, tier)
         recs, stats = de_records(tier, tmp, progs, types)
         stats["liveness"] = liveness(tmp, progs, types)
         require(len(recs) > 5000, f"too few behaviours from TLC ({len(recs)})")
